@@ -4,7 +4,7 @@ A *case* is a plain JSON-able dict; `run_solve(case)` rebuilds every callable fr
 under the recording wrappers and returns an Observation. Nothing here judges anything: clauses live in
 vp/clauses.py and the property modules.
 """
-import re, copy, math, struct, hashlib, logging, warnings
+import re, sys, copy, math, struct, hashlib, logging, warnings
 import numpy as np
 from hypothesis import strategies as st
 
@@ -417,6 +417,10 @@ def solve_kwargs(case, o):
         kw["projections"] = [set_projector(s) for s in case["proj"]]
     if case.get("argsf"):
         kw["argsf"] = tuple(case["argsf"])
+    if case.get("print_progress"):
+        kw["print_progress"] = True
+    if case.get("do_logging") is False:
+        kw["do_logging"] = False
     return kw
 
 
@@ -436,6 +440,9 @@ def run_solve(case, iter_hook=None, dykstra_log=None, x0_override=None, np_seed=
     _CUR[0] = o
     if dykstra_log is not None:
         dykstra_log.install(o)
+    saved_stdout = sys.stdout
+    if kw.get("print_progress"):
+        sys.stdout = _NullOut()       # the progress table goes to stdout
     try:
         with warnings.catch_warnings(record=True) as w:
             warnings.simplefilter("always")
@@ -447,12 +454,21 @@ def run_solve(case, iter_hook=None, dykstra_log=None, x0_override=None, np_seed=
                 o.exc = e
         o.warnings = [str(x.message) for x in w][:50]
     finally:
+        sys.stdout = saved_stdout
         _CUR[0] = None
         o.rng_after = np.random.get_state()
         if dykstra_log is not None:
             dykstra_log.uninstall()
     o.inputs_after = (x0, kw.get("bounds"), kw.get("user_params"))
     return o
+
+
+class _NullOut(object):
+    def write(self, s):
+        return len(s)
+
+    def flush(self):
+        pass
 
 
 class DykstraLog(object):
@@ -902,6 +918,9 @@ def scenarios(draw, prof=None):
     case["up"] = up
     case["np_seed"] = draw(st.integers(0, 2 ** 16))
     case["tags"] = sorted(set(tags))
+    if draw(st.floats(0, 1)) < prof.get("print_progress", 0.04):
+        case["print_progress"] = True       # solve's own progress table (stdout is swallowed by the harness)
+        case["tags"].append("print-progress")
     if prof.get("proj") and n >= 2 and draw(st.floats(0, 1)) < prof["proj"]:
         draw(attach_projections(case))
     return case
